@@ -432,8 +432,8 @@ TEMPLATES = _templates()
 # in which a symbolic character reaches pydicom's UID / the AE validator cost one path per character value and run
 # in the thorough tier only
 QUICK = ["RQ-tail1", "RQ-tail2", "RQ-tail3", "RQ-tail4", "AC-tail1", "AC-tail2", "AC-tail3", "AC-tail4",
-         "RQ-sub51", "RQ-sub53", "RQ-sub58", "RQ-sub59", "AC-sub59", "RQ-pc-head", "AC-pc-head", "AC-pc-ts",
-         "AC-pc-empty-ts-head", "AC-pc-two-subitems", "RQ-pc-in-pc", "RQ-version", "AC-version", "RQ-reserved"]
+         "RQ-sub51", "RQ-sub53", "RQ-sub58", "RQ-sub59", "AC-sub59", "RQ-pc-head", "AC-pc-head",
+         "AC-pc-empty-ts-head", "AC-pc-two-subitems", "RQ-version", "AC-version", "RQ-reserved"]
 _T = TEMPLATES[shard("t", "RQ-tail1")]
 T_PREFIX, T_N, T_FIXED, T_SUFFIX = layout(*_T)
 T_SIZE = len(T_PREFIX) + T_N + len(T_SUFFIX)
